@@ -16,15 +16,46 @@ WANT = ('C05',)
 def run(run, driver_ok=True, deep=False):
     tier = 'thorough' if deep else run.tier
     clsrun.class_property_run(run, driver_ok, WANT, per_class=40 if tier == 'quick' else 300, n_mut=25, suffixes=True)
-    extra(run, tier)
+    extra(run, tier, driver_ok)
 
 
-def extra(run, tier):
+def extra(run, tier, driver_ok=True):
+    reference_inputs(run, tier, driver_ok)
     try:
         from harness import corpus_props
     except ImportError:
         return
     corpus_props.run(run, WANT, tier)
+
+
+def reference_inputs(run, tier, driver_ok):
+    """accepted inputs that do NOT come from compose(): the RFC reference encodings of generated TLS messages and
+    extensions (harness/props/c06.py, written from the RFC text).  A composer that silently drops or rewrites something
+    produces a fixed point of parse/compose on its own output; it is seen only on independently written bytes."""
+    try:
+        from harness.props import c06
+        from harness import canon
+    except ImportError:
+        return
+    modelled = clsops.modelled()
+    cases = []
+    n = 40 if tier == 'quick' else 400
+    for gen in c06.GENERATORS:
+        for _ in range(n):
+            try:
+                obj = gen(run.rng)
+                ref = c06.reference(obj)
+            except canon.Unmodelled:
+                continue
+            except Exception:  # pylint: disable=broad-except
+                continue
+            name = type(obj).__name__
+            if name not in modelled:
+                continue
+            run.count('reference_inputs', name)
+            cases.append({'kind': 'cls', 'cls': name, 'data': core.hx(ref), 'want': ['C05'],
+                          'framing': name in clsrun.FRAMING_MODELLED})
+    clsrun.run_cases(run, cases, driver_ok)
 
 
 def search(run, proof):
